@@ -27,4 +27,12 @@ CHECKS = {
         note=COMMON_NOTE,
         technique="TLA+ spec + TLC BFS case enumeration, replayed into the Go helpers (spec->code conformance)",
         design_ref="DESIGN.md section 6 (C14)"),
+    "C03": dict(
+        text="Bounded-exhaustive: TLC enumerates 12 operators x every ordered pair of shapes (rank 0..3, extents 1..2 quick; rank 0..3 "
+             "extents 1..3 plus rank 4 extents 1..2 thorough) with distinct ids, and per operator and dtype every ordered pair of a "
+             "special-value catalogue (NaN, +-Inf, +-0, +-MaxFloat, fractions; MIN, MAX, MAX-1, UMAX as width-independent symbolic integers); "
+             "the TLA+ IEEE / wrap-around semantics gives the exact expected tensor, compared bit for bit in three execution modes.",
+        note=COMMON_NOTE + " Division results are compared with the correctly rounded rational. Integer division by zero and mixed operand types are outside the must-domain (no-crash only).",
+        technique="TLA+ operator semantics + TLC BFS case enumeration, replayed into operator API and Model.Run",
+        design_ref="DESIGN.md section 6 (C03)"),
 }
